@@ -1809,6 +1809,63 @@ def stream_permutations(ctx, batch):
     ctx.extra["permutation_cases"] = done
 
 
+def shuffle_deep(rng, d):
+    """the same description with EVERY list reordered (Lean: Props.C13.perm_deep): types, fields, arguments, enum
+    values, input fields, union members, implemented interfaces, directive arguments"""
+    n = copy.deepcopy(d)
+    rng.shuffle(n["types"])
+    for t in n["types"]:
+        for key in ("fields", "input_fields", "values", "members", "interfaces"):
+            if isinstance(t.get(key), list):
+                rng.shuffle(t[key])
+        for f in t.get("fields", []) or []:
+            if isinstance(f.get("args"), list):
+                rng.shuffle(f["args"])
+    for dd in n.get("directives", []) or []:
+        if isinstance(dd.get("args"), list):
+            rng.shuffle(dd["args"])
+    return n
+
+
+def stream_deep_permutations(ctx, batch):
+    """fixed quota in every run (own PRNG per case): valid schemas and schemas with one labelled violation, every list of
+    the description reordered: same verdict from the real validator, and the model agrees on the reordered dump"""
+    import random
+    done = 0
+    for i in range(ctx.n(10, 60)):
+        if ctx.time_left() < 15:
+            break
+        rng = random.Random(0xDEE9 + 7907 * i)
+        base = add_arg_cluster(base_schema(rng, rng.choice([0, 1]), cluster=True))
+        if i % 2:
+            base, labels, _ = apply_injections(rng, base, 1, allowed=[x for x in INJECTIONS if not x.name.startswith("res_")
+                                                                        and x.name not in ("no_query", "root_not_object", "union_member_kind")])
+        s0 = try_build(ctx, build_code, base)
+        if s0 is None:
+            continue
+        ref = real_validate(s0)[0]
+        for k in range(2):
+            d2 = shuffle_deep(rng, base)
+            s2 = try_build(ctx, build_code, d2)
+            if s2 is None:
+                continue
+            ctx.count()
+            got = real_validate(s2)[0]
+            ctx.stat("deep-perm:%s" % ref)
+            ctx.nontrivial(("deep-perm", canon_schema.canon(dump(s2))))
+            done += 1
+            if got != ref:
+                ctx.fail("verdict-depends-on-inner-order", "the verdict changes when the member lists of the description are reordered",
+                         {"how": "deep-perm", "desc": base, "desc_b": d2, "verdict_a": ref, "verdict_b": got})
+            dmp = dump(s2)
+
+            def cont(ans, verdict=got, dmp=dmp):
+                if (ans.get("valid") is True) != (verdict == "valid"):
+                    ctx.fail("corr:validate:deep-perm", "model verdict differs on a reordered schema", {"schema": dmp, "real": verdict}, kind="correspondence")
+            batch.add({"op": "validate", "schema": dmp}, cont)
+    ctx.extra["deep_permutation_cases"] = done
+
+
 def all_small_types(names, depth):
     cur = [("named", n) for n in names]
     out = list(cur)
@@ -3225,6 +3282,7 @@ def run(ctx):
     stream_setter_edits(ctx, batch)
     stream_every_position(ctx, batch)
     stream_permutations(ctx, batch)
+    stream_deep_permutations(ctx, batch)
     stream_histories(ctx, batch)
     stream_valid_and_injected(ctx, batch)
     stream_structural_setters(ctx, batch)
@@ -3255,6 +3313,9 @@ def replay(ctx, data):
         return bool(structural_case(ctx, None, inp["structural_seed"], inp["kind"]))
     if inp.get("how") == "address-reuse":
         return not any(address_reuse_case(ctx, inp["slot"])[0] for _ in range(5))
+    if inp.get("how") == "deep-perm":
+        a, b = build_code(_to_tuples(inp["desc"])), build_code(_to_tuples(inp["desc_b"]))
+        return real_validate(a)[0] == real_validate(b)[0]
     how = inp.get("how", "")
     if not how:
         return True     # not a failing-input replay (e.g. a record of what no longer checks)
